@@ -1,4 +1,909 @@
+//! C01 - wire encoding of every message matches the vhost-user specification.
+//!
+//! The independent spec codec sits on the other end of a socketpair as a raw peer:
+//!  fe   : real `Frontend` API calls -> bytes/fds on the wire compared with the spec encoding;
+//!         spec-encoded replies (random values) -> API return values compared with what was encoded
+//!  srv  : spec-encoded requests -> real `BackendReqHandler` -> recording handler sees the encoded
+//!         values; replies/acks it writes are compared with the spec encoding of the scripted result
+//!  be   : `Backend` proxy requests / `FrontendReqHandler` acks
+//!  gpu  : `GpuBackend` requests and decoded replies
+
+use crate::ops::{self, FeOp, Lent, ReplyKind};
+use crate::rec::{CfgOut, DevStateOut, FeOut, RecFrontend, Script};
+use crate::util;
 use crate::Cfg;
-pub fn run(_cfg: &Cfg) {
-    common::report::inconclusive("not implemented");
+use common::spec::{self, be, fe, gpu, F_NEED_REPLY, F_REPLY, F_VERSION1};
+use common::sys::{self, Ident};
+use common::{jo, report, Rng, J};
+use std::fs::File;
+use std::os::unix::io::{AsRawFd, RawFd};
+use std::os::unix::net::UnixStream;
+use std::sync::{Arc, Mutex};
+
+use vhost::vhost_user::gpu_message::*;
+use vhost::vhost_user::message::*;
+use vhost::vhost_user::{
+    Backend, Frontend, FrontendReqHandler, GpuBackend, VhostUserFrontend, VhostUserFrontendReqHandler,
+};
+use vhost::VhostBackend;
+use vm_memory::ByteValued;
+
+const KNOWN_PF_MASK: u64 = (1 << 22) - 1;
+
+fn viol(cfg: &Cfg, sig: &str, case: &str, detail: J) {
+    report::violation(&format!("C01:{sig}"), detail, cfg.replay(case));
+}
+
+/// A spec-conformant reply for `op` carrying random values: (payload, fd to attach, expectation).
+pub struct Reply {
+    pub payload: Vec<u8>,
+    pub file: Option<File>,
+    pub exp_ok: bool,
+    pub exp_vals: Vec<u64>,
+    pub exp_bytes: Vec<u8>,
+    pub exp_file: Option<Ident>,
+    pub exp_none_file: bool,
+}
+
+pub fn make_reply(op: &FeOp, kind: ReplyKind, rng: &mut Rng) -> Reply {
+    let mut r = Reply { payload: vec![], file: None, exp_ok: true, exp_vals: vec![], exp_bytes: vec![], exp_file: None, exp_none_file: false };
+    let with_file = |r: &mut Reply| {
+        let f = sys::memfd("reply", 4096);
+        r.exp_file = sys::ident(f.as_raw_fd());
+        r.file = Some(f);
+    };
+    match kind {
+        ReplyKind::Ack => {
+            r.payload = spec::p_u64(0);
+        }
+        ReplyKind::Nothing => {}
+        ReplyKind::U64 => {
+            let v = match op {
+                FeOp::GetQueueNum => *rng.pick(&[0u64, 1, 2, 255, 256, 0x7fff, 0x8000]),
+                FeOp::GetProtocolFeatures => rng.interesting64() & KNOWN_PF_MASK,
+                FeOp::CheckDeviceState => {
+                    if rng.chance(1, 2) {
+                        0
+                    } else {
+                        rng.interesting64().max(1)
+                    }
+                }
+                _ => rng.interesting64(),
+            };
+            r.payload = spec::p_u64(v);
+            if matches!(op, FeOp::CheckDeviceState) {
+                r.exp_ok = v == 0;
+            } else {
+                r.exp_vals = vec![v];
+            }
+        }
+        ReplyKind::VringState => {
+            let idx = if let FeOp::GetVringBase(i) = op { *i as u32 } else { 0 };
+            let num = rng.interesting64() as u32;
+            r.payload = spec::p_vring_state(idx, num);
+            r.exp_vals = vec![num as u64];
+        }
+        ReplyKind::Config => {
+            if let FeOp::GetConfig { offset, size, flags, .. } = op {
+                let data = rng.bytes(*size as usize);
+                r.payload = spec::p_config(*offset, *size, *flags, &data);
+                r.exp_vals = vec![*offset as u64, *size as u64, *flags as u64];
+                r.exp_bytes = data;
+            }
+        }
+        ReplyKind::InflightFd => {
+            let (a, b, c, d) = (rng.interesting64(), rng.interesting64(), rng.range(1, 0xffff) as u16, rng.range(1, 0xffff) as u16);
+            r.payload = spec::p_inflight(a, b, c, d);
+            r.exp_vals = vec![a, b, c as u64, d as u64];
+            with_file(&mut r);
+        }
+        ReplyKind::EmptyFd => {
+            with_file(&mut r);
+        }
+        ReplyKind::U64OptFd => {
+            if rng.chance(1, 2) {
+                r.payload = spec::p_u64(0);
+                with_file(&mut r);
+            } else {
+                r.payload = spec::p_u64(0x100);
+                r.exp_none_file = true;
+            }
+        }
+        ReplyKind::ShmemCfg => {
+            let n = rng.below(257) as u32;
+            let mut sizes = [0u64; 256];
+            for s in sizes.iter_mut().take(n.min(256) as usize) {
+                *s = rng.interesting64();
+            }
+            r.payload = spec::p_shmem_config(n, &sizes);
+            r.exp_vals = vec![n as u64];
+            r.exp_vals.extend_from_slice(&sizes);
+        }
+        ReplyKind::Log => {
+            if let FeOp::SetLogBase(_, Some((s, o))) = op {
+                r.payload = spec::p_log(*s, *o);
+            }
+        }
+    }
+    r
+}
+
+#[derive(Clone, Copy, Debug)]
+pub struct FeCfg {
+    pub need_reply: bool,
+    pub reply_ack: bool,
+    pub log_shmfd: bool,
+}
+
+pub fn preload(peer: &UnixStream, code: u32, payload: &[u8], file: Option<&File>) {
+    let fds: Vec<RawFd> = file.iter().map(|f| f.as_raw_fd()).collect();
+    sys::send_all(peer.as_raw_fd(), &spec::msg(code, F_VERSION1 | F_REPLY, payload), &fds).expect("preload reply");
+}
+
+/// Build a frontend in the negotiated state described by `c`, all features offered.
+pub fn setup_frontend(c: FeCfg, maxq: u64) -> (Frontend, UnixStream) {
+    let (mut f, peer) = util::raw_frontend(maxq);
+    let pfd = peer.as_raw_fd();
+    preload(&peer, fe::GET_FEATURES, &spec::p_u64(spec::VIRTIO_F_PROTOCOL_FEATURES | 0x3), None);
+    f.get_features().expect("get_features");
+    f.set_features(spec::VIRTIO_F_PROTOCOL_FEATURES).expect("set_features");
+    preload(&peer, fe::GET_PROTOCOL_FEATURES, &spec::p_u64(ops::ALL_PF), None);
+    f.get_protocol_features().expect("get_protocol_features");
+    let mut pf = ops::ALL_PF;
+    if !c.reply_ack {
+        pf &= !spec::PF_REPLY_ACK;
+    }
+    if !c.log_shmfd {
+        pf &= !spec::PF_LOG_SHMFD;
+    }
+    f.set_protocol_features(VhostUserProtocolFeatures::from_bits_retain(pf)).expect("set_protocol_features");
+    let mut d = sys::drain_nb(pfd);
+    d.close_fds();
+    if c.need_reply {
+        f.set_hdr_flags(VhostUserHeaderFlag::NEED_REPLY);
+    }
+    (f, peer)
+}
+
+/// One frontend API call against the raw peer; checks both directions.
+/// Returns false when the endpoint may hold stale bytes and must be rebuilt.
+pub fn fe_case(cfg: &Cfg, f: &mut Frontend, peer: &UnixStream, c: FeCfg, op: &FeOp, rng: &mut Rng, case: &str) -> bool {
+    let kind = op.reply_kind(c.log_shmfd);
+    // SET_PROTOCOL_FEATURES takes effect with the message itself (both endpoints of the crate agree)
+    let eff_reply_ack = if let FeOp::SetProtocolFeatures(v) = op { v & spec::PF_REPLY_ACK != 0 } else { c.reply_ack };
+    let ack_expected = kind == ReplyKind::Ack && eff_reply_ack && c.need_reply;
+    let rep = make_reply(op, kind, rng);
+    if kind != ReplyKind::Ack && kind != ReplyKind::Nothing {
+        preload(peer, op.code(), &rep.payload, rep.file.as_ref());
+    } else if ack_expected {
+        preload(peer, op.code(), &spec::p_u64(0), None);
+    }
+    let mut lent = Lent::default();
+    let out = match util::catch(|| op.exec(f, &mut lent)) {
+        Ok(o) => o,
+        Err(p) => {
+            viol(cfg, &format!("fe:{}:panic", op.name()), case, jo! {"op" => op.j(), "panic" => p.msg, "at" => p.location});
+            return false;
+        }
+    };
+    if !out.ok && sys::inq(peer.as_raw_fd()) == 0 {
+        // the API refused the call locally: nothing to compare on the wire (C02/C07 judge refusals)
+        report::observe(&format!("api-refused:{}", op.name()), jo! {"op" => op.j(), "err" => out.err.as_str()});
+        return false;
+    }
+    let mut m = spec::read_msg(peer.as_raw_fd(), 2000, 1 << 20);
+    report::eval(1);
+    let (body, nfds) = op.wire(c.log_shmfd);
+    report::distinct(report::hash_mix(
+        report::hash_str(&format!("fe:{}:{}{}{}", op.name(), c.need_reply as u8, c.reply_ack as u8, c.log_shmfd as u8)),
+        report::hash_bytes(&body),
+    ));
+    report::count(&format!("fe.{}", op.name()), 1);
+    let detail = |what: &str, m: &spec::RawMsg| {
+        jo! {"what" => what, "op" => op.j(), "cfg" => format!("{c:?}"), "wire_hdr" => J::hex(&m.hdr_bytes), "wire_body" => J::hex(&m.body),
+        "spec_body" => J::hex(&body), "fds_first" => m.fds_first.len(), "fds_later" => m.fds_later.len(), "outcome" => out.j()}
+    };
+    if !m.complete() {
+        viol(cfg, &format!("fe:{}:incomplete-message", op.name()), case, detail("request not fully written", &m));
+        m.close_fds();
+        return false;
+    }
+    let h = m.hdr();
+    let want_flags = F_VERSION1 | if c.need_reply { F_NEED_REPLY } else { 0 };
+    if h.code != op.code() {
+        viol(cfg, &format!("fe:{}:request-code", op.name()), case, detail("request code", &m));
+    }
+    if h.flags != want_flags {
+        viol(cfg, &format!("fe:{}:flags", op.name()), case, detail(&format!("flags {:#x} want {:#x}", h.flags, want_flags), &m));
+    }
+    if h.size as usize != body.len() || m.body != body {
+        viol(cfg, &format!("fe:{}:payload", op.name()), case, detail("payload differs from spec encoding", &m));
+    }
+    if !m.fds_later.is_empty() {
+        viol(cfg, &format!("fe:{}:fds-after-first-byte", op.name()), case, detail("descriptors not on first byte", &m));
+    }
+    if m.fds_first.len() != nfds {
+        viol(cfg, &format!("fe:{}:fd-count", op.name()), case, detail("descriptor count", &m));
+    } else {
+        // identity and order
+        let got: Vec<Option<Ident>> = m.fds_first.iter().map(|fd| sys::ident(*fd)).collect();
+        let want: Vec<Option<Ident>> = if matches!(op, FeOp::SetDeviceStateFd(..)) {
+            got.clone() // the descriptor was given away by value; identity checked by C02
+        } else {
+            lent.idents.iter().take(nfds).cloned().map(Some).collect()
+        };
+        if got != want {
+            viol(cfg, &format!("fe:{}:fd-identity", op.name()), case, detail("descriptor identity/order", &m));
+        }
+    }
+    m.close_fds();
+    // decode direction
+    if out.ok != rep.exp_ok {
+        viol(cfg, &format!("fe:{}:conformant-reply-result", op.name()), case, detail("result for a conformant reply", &m));
+    } else if out.ok {
+        let file_ok = match (&out.file, &rep.exp_file) {
+            (Some(f), Some(id)) => sys::ident(f.as_raw_fd()).as_ref() == Some(id),
+            (None, None) => true,
+            _ => false,
+        };
+        if out.vals != rep.exp_vals || out.bytes != rep.exp_bytes || !file_ok {
+            viol(cfg, &format!("fe:{}:decoded-reply", op.name()), case,
+                jo! {"op" => op.j(), "reply_payload" => J::hex(&rep.payload), "decoded" => out.j(),
+                "expected_vals" => rep.exp_vals.iter().map(|v| J::x64(*v)).collect::<Vec<J>>(), "file_ok" => file_ok});
+        }
+    }
+    report::sample(&format!("fe.{}", op.name()), jo! {"channel" => "frontend", "op" => op.j(), "cfg" => format!("{c:?}"),
+        "hdr" => J::hex(&m.hdr_bytes), "body" => J::hex(&m.body), "fds" => nfds});
+    // leftovers on the peer socket would desynchronise the next case
+    let mut d = sys::drain_nb(peer.as_raw_fd());
+    let extra = !d.bytes.is_empty();
+    if extra {
+        viol(cfg, &format!("fe:{}:extra-bytes", op.name()), case, jo! {"op" => op.j(), "extra" => J::hex(&d.bytes)});
+    }
+    d.close_fds();
+    out.ok == rep.exp_ok && rep.exp_ok && !extra
+}
+
+fn frontend_dir(cfg: &Cfg, rng: &mut Rng) {
+    let n = cfg.pick(60, 700);
+    for nr in [false, true] {
+        for ra in [false, true] {
+            for ls in [false, true] {
+                let c = FeCfg { need_reply: nr, reply_ack: ra, log_shmfd: ls };
+                let (mut f, mut peer) = setup_frontend(c, 0x8000);
+                for kind in 0..ops::N_OP_KINDS {
+                    for k in 0..n {
+                        let op = ops::rand_op(rng, 256, Some(kind));
+                        if op.locally_invalid(0x8000) {
+                            continue;
+                        }
+                        // set_protocol_features / set_features would change the negotiated state
+                        if matches!(op, FeOp::SetProtocolFeatures(_) | FeOp::SetFeatures(_) | FeOp::GetFeatures | FeOp::GetProtocolFeatures) {
+                            if k > 2 {
+                                break;
+                            }
+                            let (mut f2, p2) = setup_frontend(c, 0x8000);
+                            fe_case(cfg, &mut f2, &p2, c, &op, rng, "fe");
+                            continue;
+                        }
+                        if matches!(op, FeOp::GetQueueNum) {
+                            // changes the known maximum; use a scratch endpoint
+                            let (mut f2, p2) = setup_frontend(c, 0x8000);
+                            fe_case(cfg, &mut f2, &p2, c, &op, rng, "fe");
+                            continue;
+                        }
+                        if !fe_case(cfg, &mut f, &peer, c, &op, rng, "fe") {
+                            (f, peer) = setup_frontend(c, 0x8000);
+                        }
+                    }
+                }
+                // every config payload length 1..=4084 (GET and SET)
+                if cfg.thorough || (nr && ra && ls) {
+                    let step = cfg.pick(37, 1);
+                    let mut len = 1u32;
+                    while len <= 4084 {
+                        let off = rng.range(0, (0x1000 - len.min(0x1000)) as u64) as u32;
+                        let data = rng.bytes(len as usize);
+                        let ok1 = fe_case(cfg, &mut f, &peer, c, &FeOp::SetConfig { offset: off, flags: rng.below(4) as u32, buf: data.clone() }, rng, "fe");
+                        let ok2 = ok1 && fe_case(cfg, &mut f, &peer, c, &FeOp::GetConfig { offset: off, size: len, flags: rng.below(4) as u32, buf: data }, rng, "fe");
+                        if !ok2 {
+                            (f, peer) = setup_frontend(c, 0x8000);
+                        }
+                        len += step;
+                    }
+                    report::count("fe.config_lengths_swept", 1);
+                }
+                // 1..=32 regions
+                for n in 1..=32u64 {
+                    let regs = (0..n).map(|_| ops::rand_region(rng)).collect();
+                    if !fe_case(cfg, &mut f, &peer, c, &FeOp::SetMemTable(regs), rng, "fe") {
+                        (f, peer) = setup_frontend(c, 0x8000);
+                    }
+                }
+            }
+        }
+    }
+}
+
+// ---------------------------------------------------------------------------------------------
+// server direction
+
+/// Expected reply payload (spec encoding of the scripted handler result); None = don't care.
+fn srv_expected_reply(op: &FeOp, s: &Script) -> Option<Vec<u8>> {
+    Some(match op {
+        FeOp::GetFeatures => spec::p_u64(s.features),
+        FeOp::GetProtocolFeatures => spec::p_u64(s.protocol_features | spec::PF_REPLY_ACK),
+        FeOp::GetQueueNum => spec::p_u64(s.queue_num),
+        FeOp::GetMaxMemSlots => spec::p_u64(s.max_mem_slots),
+        FeOp::GetVringBase(i) => spec::p_vring_state(*i as u32, s.vring_base_num),
+        FeOp::GetConfig { offset, size, flags, .. } => {
+            spec::p_config(*offset, *size, *flags, &crate::rec::config_pattern(*offset, *size, 0x5a))
+        }
+        FeOp::GetInflightFd(..) => {
+            let r = s.inflight_reply;
+            // trailing struct padding (4 bytes) is unspecified: compared on the first 20 bytes only
+            spec::p_inflight(r.0, r.1, r.2, r.3)
+        }
+        FeOp::GetSharedObject(_) | FeOp::PostcopyAdvise => vec![],
+        FeOp::SetDeviceStateFd(..) => match s.dev_state {
+            DevStateOut::NoFile => spec::p_u64(0x100),
+            DevStateOut::WithFile => spec::p_u64(0),
+            DevStateOut::Err => return None,
+        },
+        FeOp::CheckDeviceState => spec::p_u64(0),
+        FeOp::GetShmemConfig => {
+            let mut sizes = [0u64; 256];
+            for (i, v) in s.shmem.1.iter().enumerate().take(256) {
+                sizes[i] = *v;
+            }
+            spec::p_shmem_config(s.shmem.0, &sizes)
+        }
+        FeOp::SetLogBase(..) => return None,
+        _ => return None,
+    })
+}
+
+fn reply_has_fd(op: &FeOp, s: &Script) -> usize {
+    match op {
+        FeOp::GetInflightFd(..) | FeOp::GetSharedObject(_) | FeOp::PostcopyAdvise => 1,
+        FeOp::SetDeviceStateFd(..) => (s.dev_state == DevStateOut::WithFile) as usize,
+        _ => 0,
+    }
+}
+
+/// Descriptors to attach to a spec-encoded request.
+pub fn req_files(op: &FeOp, n: usize) -> (Vec<File>, Vec<std::os::unix::net::UnixStream>) {
+    let mut files = Vec::new();
+    let mut socks = Vec::new();
+    for _ in 0..n {
+        match op {
+            FeOp::SetVringCall(_) | FeOp::SetVringKick(_) | FeOp::SetVringErr(_) | FeOp::SetLogFd => files.push(sys::eventfd_file(0)),
+            FeOp::SetBackendReqFd => {
+                let (a, b) = sys::pair();
+                socks.push(a);
+                socks.push(b);
+            }
+            _ => files.push(sys::memfd("req", 4096)),
+        }
+    }
+    (files, socks)
+}
+
+fn server_dir(cfg: &Cfg, rng: &mut Rng) {
+    let n = cfg.pick(40, 500);
+    for need_reply in [false, true] {
+        for reply_ack in [false, true] {
+            let mut script = util::full_script();
+            script.features = spec::VIRTIO_F_PROTOCOL_FEATURES | (rng.interesting64() & !spec::VIRTIO_F_PROTOCOL_FEATURES);
+            script.queue_num = rng.interesting64();
+            script.max_mem_slots = rng.interesting64();
+            script.vring_base_num = rng.next() as u32;
+            script.inflight_reply = (rng.interesting64(), rng.interesting64(), rng.range(1, 0xffff) as u16, rng.range(1, 0xffff) as u16);
+            script.shmem = (rng.below(257) as u32, (0..rng.below(257)).map(|_| rng.interesting64()).collect());
+            script.drop_files = false;
+            let (peer, mut srv, be) = util::raw_server(script.clone());
+            let pf = if reply_ack { ops::ALL_PF } else { ops::ALL_PF & !spec::PF_REPLY_ACK };
+            util::raw_negotiate(&peer, &mut srv, spec::VIRTIO_F_PROTOCOL_FEATURES, pf);
+            for kind in 0..ops::N_OP_KINDS {
+                for _ in 0..n {
+                    let op = ops::rand_op(rng, 256, Some(kind));
+                    if op.locally_invalid(256) {
+                        continue;
+                    }
+                    if matches!(op, FeOp::SetLogFd) {
+                        report::observe("srv:SET_LOG_FD-not-implemented-by-server", J::Null);
+                        break; // the server has no handler for it (C04 judges only sync/no-panic)
+                    }
+                    if matches!(op, FeOp::SetProtocolFeatures(_) | FeOp::SetFeatures(_)) {
+                        continue; // would renegotiate; covered by C04/C07 histories and by raw_negotiate above
+                    }
+                    be.lock().unwrap().script.dev_state = match rng.below(2) {
+                        0 => DevStateOut::NoFile,
+                        _ => DevStateOut::WithFile,
+                    };
+                    let script_now = be.lock().unwrap().script.clone();
+                    let (body, nfds) = op.wire(true);
+                    let (files, socks) = req_files(&op, nfds);
+                    let mut fds: Vec<RawFd> = files.iter().map(|f| f.as_raw_fd()).collect();
+                    fds.extend(socks.iter().step_by(2).map(|s| s.as_raw_fd()));
+                    let idents: Vec<Option<Ident>> = fds.iter().map(|f| sys::ident(*f)).collect();
+                    let flags = F_VERSION1 | if need_reply { F_NEED_REPLY } else { 0 };
+                    sys::send_all(peer.as_raw_fd(), &spec::msg(op.code(), flags, &body), &fds).expect("send request");
+                    let before = be.lock().unwrap().log.len();
+                    let res = util::catch(|| srv.handle_request());
+                    report::eval(1);
+                    report::count(&format!("srv.{}", op.name()), 1);
+                    report::distinct(report::hash_mix(
+                        report::hash_str(&format!("srv:{}:{}{}", op.name(), need_reply as u8, reply_ack as u8)),
+                        report::hash_bytes(&body),
+                    ));
+                    let case = "srv";
+                    let res = match res {
+                        Ok(r) => r,
+                        Err(p) => {
+                            viol(cfg, &format!("srv:{}:panic", op.name()), case, jo! {"op" => op.j(), "panic" => p.msg, "at" => p.location});
+                            return;
+                        }
+                    };
+                    // decode direction: the handler saw exactly what was encoded
+                    let log: Vec<crate::rec::Call> = be.lock().unwrap().log[before..].to_vec();
+                    let (m, args, bytes, nf) = op.expected_call();
+                    let ok_log = log.len() == 1
+                        && log[0].method == m
+                        && log[0].args == args
+                        && log[0].bytes == bytes
+                        && log[0].fds.len() == if matches!(op, FeOp::SetBackendReqFd) { 0 } else { nf }
+                        && (matches!(op, FeOp::SetBackendReqFd)
+                            || log[0].fds.iter().map(|(_, id)| id.clone()).collect::<Vec<_>>() == idents);
+                    if !ok_log {
+                        viol(cfg, &format!("srv:{}:decoded-request", op.name()), case,
+                            jo! {"op" => op.j(), "sent_body" => J::hex(&body), "result" => format!("{res:?}"),
+                            "handler_log" => log.iter().map(|c| c.j()).collect::<Vec<J>>(),
+                            "expected" => jo!{"method" => m, "args" => args.iter().map(|a| J::x64(*a)).collect::<Vec<J>>(), "bytes" => J::hex(&bytes), "nfds" => nf}});
+                    }
+                    // encode direction: what the server wrote
+                    let (mut msgs, rest) = spec::read_all_msgs(peer.as_raw_fd(), 1 << 20);
+                    let kind_r = op.reply_kind(true);
+                    let want_n = match kind_r {
+                        ReplyKind::Ack => (need_reply && reply_ack) as usize,
+                        ReplyKind::Nothing => 0,
+                        _ => 1,
+                    };
+                    let d = |what: &str, msgs: &Vec<spec::RawMsg>| {
+                        jo! {"what" => what, "op" => op.j(), "need_reply" => need_reply, "reply_ack" => reply_ack, "result" => format!("{res:?}"),
+                        "written" => msgs.iter().map(|m| jo!{"hdr" => J::hex(&m.hdr_bytes), "body" => J::hex(&m.body), "fds" => m.fds_first.len()}).collect::<Vec<J>>(),
+                        "trailing" => J::hex(&rest)}
+                    };
+                    if msgs.len() != want_n || !rest.is_empty() {
+                        viol(cfg, &format!("srv:{}:reply-count", op.name()), case, d("number of messages written", &msgs));
+                    } else if want_n == 1 {
+                        let r = &msgs[0];
+                        let h = r.hdr();
+                        if h.code != op.code() || h.flags != (F_VERSION1 | F_REPLY) || h.size as usize != r.body.len() {
+                            viol(cfg, &format!("srv:{}:reply-header", op.name()), case, d("reply header", &msgs));
+                        }
+                        if !r.fds_later.is_empty() {
+                            viol(cfg, &format!("srv:{}:reply-fds-after-first-byte", op.name()), case, d("fd placement", &msgs));
+                        }
+                        if kind_r == ReplyKind::Ack {
+                            if r.body != spec::p_u64(0) {
+                                viol(cfg, &format!("srv:{}:ack-payload", op.name()), case, d("ack payload for a successful handler", &msgs));
+                            }
+                        } else if let Some(exp) = srv_expected_reply(&op, &script_now) {
+                            let cmp_len = if matches!(op, FeOp::GetInflightFd(..)) { 20 } else { exp.len() };
+                            if r.body.len() != exp.len() || r.body[..cmp_len] != exp[..cmp_len] {
+                                viol(cfg, &format!("srv:{}:reply-payload", op.name()), case,
+                                    jo! {"op" => op.j(), "written" => J::hex(&r.body), "spec" => J::hex(&exp)});
+                            }
+                            if r.fds_first.len() != reply_has_fd(&op, &script_now) {
+                                viol(cfg, &format!("srv:{}:reply-fd-count", op.name()), case, d("reply fd count", &msgs));
+                            } else if let Some(fd) = r.fds_first.first() {
+                                let ret = be.lock().unwrap().returned.last().cloned();
+                                if sys::ident(*fd) != ret {
+                                    viol(cfg, &format!("srv:{}:reply-fd-identity", op.name()), case, d("reply fd identity", &msgs));
+                                }
+                            }
+                        }
+                        report::sample(&format!("srv.{}", op.name()), jo! {"channel" => "backend-server", "request" => op.j(),
+                            "reply_hdr" => J::hex(&r.hdr_bytes), "reply_body" => J::hex(&r.body), "reply_fds" => r.fds_first.len()});
+                    }
+                    for m in msgs.iter_mut() {
+                        m.close_fds();
+                    }
+                    // keep the handler's held files bounded
+                    {
+                        let mut g = be.lock().unwrap();
+                        g.held.clear();
+                        g.backend = None;
+                        let keep = g.log.len().saturating_sub(4);
+                        g.log.drain(..keep);
+                        g.returned.clear();
+                    }
+                    drop(files);
+                    drop(socks);
+                    if res.is_err() {
+                        viol(cfg, &format!("srv:{}:conformant-request-rejected", op.name()), case,
+                            jo! {"op" => op.j(), "body" => J::hex(&body), "result" => format!("{res:?}")});
+                        return;
+                    }
+                }
+            }
+        }
+    }
+}
+
+// ---------------------------------------------------------------------------------------------
+// backend-initiated channel
+
+#[derive(Clone, Debug)]
+pub enum BeOp {
+    Add([u8; 16]),
+    Remove([u8; 16]),
+    Lookup([u8; 16]),
+    Map(u8, [u8; 7], u64, u64, u64, u64),
+    Unmap(u8, [u8; 7], u64, u64, u64, u64),
+}
+
+impl BeOp {
+    pub fn code(&self) -> u32 {
+        match self {
+            BeOp::Add(_) => be::SHARED_OBJECT_ADD,
+            BeOp::Remove(_) => be::SHARED_OBJECT_REMOVE,
+            BeOp::Lookup(_) => be::SHARED_OBJECT_LOOKUP,
+            BeOp::Map(..) => be::SHMEM_MAP,
+            BeOp::Unmap(..) => be::SHMEM_UNMAP,
+        }
+    }
+    pub fn name(&self) -> &'static str {
+        match self {
+            BeOp::Add(_) => "shared_object_add",
+            BeOp::Remove(_) => "shared_object_remove",
+            BeOp::Lookup(_) => "shared_object_lookup",
+            BeOp::Map(..) => "shmem_map",
+            BeOp::Unmap(..) => "shmem_unmap",
+        }
+    }
+    pub fn wire(&self) -> (Vec<u8>, usize) {
+        match self {
+            BeOp::Add(u) | BeOp::Remove(u) => (u.to_vec(), 0),
+            BeOp::Lookup(u) => (u.to_vec(), 1),
+            BeOp::Map(a, p, b, c, d, e) => (spec::p_mmap(*a, *p, *b, *c, *d, *e), 1),
+            BeOp::Unmap(a, p, b, c, d, e) => (spec::p_mmap(*a, *p, *b, *c, *d, *e), 0),
+        }
+    }
+    pub fn expected_call(&self) -> (&'static str, Vec<u64>, Vec<u8>, usize) {
+        match self {
+            BeOp::Add(u) | BeOp::Remove(u) => (self.name(), vec![], u.to_vec(), 0),
+            BeOp::Lookup(u) => (self.name(), vec![], u.to_vec(), 1),
+            BeOp::Map(a, p, b, c, d, e) => (self.name(), vec![*a as u64, *b, *c, *d, *e], p.to_vec(), 1),
+            BeOp::Unmap(a, p, b, c, d, e) => (self.name(), vec![*a as u64, *b, *c, *d, *e], p.to_vec(), 0),
+        }
+    }
+    pub fn exec(&self, b: &Backend, fd: &File) -> std::io::Result<u64> {
+        let mm = |a: &u8, p: &[u8; 7], b: &u64, c: &u64, d: &u64, e: &u64| VhostUserMMap {
+            shmid: *a,
+            padding: *p,
+            fd_offset: *b,
+            shm_offset: *c,
+            len: *d,
+            flags: *e,
+        };
+        match self {
+            BeOp::Add(u) => b.shared_object_add(&ops::uuid_msg(u)),
+            BeOp::Remove(u) => b.shared_object_remove(&ops::uuid_msg(u)),
+            BeOp::Lookup(u) => b.shared_object_lookup(&ops::uuid_msg(u), fd),
+            BeOp::Map(a, p, x, c, d, e) => b.shmem_map(&mm(a, p, x, c, d, e), fd),
+            BeOp::Unmap(a, p, x, c, d, e) => b.shmem_unmap(&mm(a, p, x, c, d, e)),
+        }
+    }
+    pub fn j(&self) -> J {
+        J::S(format!("{self:x?}"))
+    }
+}
+
+pub fn rand_mmap(rng: &mut Rng) -> (u8, [u8; 7], u64, u64, u64, u64) {
+    loop {
+        let (fo, so, len, fl) = (rng.interesting64(), rng.interesting64(), rng.interesting64(), rng.below(2));
+        if spec::valid::mmap(fo, so, len, fl) {
+            let pad = if rng.chance(1, 2) { [0u8; 7] } else { [rng.next() as u8; 7] };
+            return (rng.next() as u8, pad, fo, so, len, fl);
+        }
+    }
+}
+
+pub fn rand_beop(rng: &mut Rng, kind: u64) -> BeOp {
+    match kind % 5 {
+        0 => BeOp::Add(ops::rand_uuid(rng)),
+        1 => BeOp::Remove(ops::rand_uuid(rng)),
+        2 => BeOp::Lookup(ops::rand_uuid(rng)),
+        3 => {
+            let (a, p, b, c, d, e) = rand_mmap(rng);
+            BeOp::Map(a, p, b, c, d, e)
+        }
+        _ => {
+            let (a, p, b, c, d, e) = rand_mmap(rng);
+            BeOp::Unmap(a, p, b, c, d, e)
+        }
+    }
+}
+
+fn backend_channel(cfg: &Cfg, rng: &mut Rng) {
+    let n = cfg.pick(150, 2500);
+    // proxy -> wire
+    for reply_ack in [false, true] {
+        let (a, peer) = sys::pair();
+        let b = Backend::from_stream(a);
+        b.set_reply_ack_flag(reply_ack);
+        b.set_shared_object_flag(true);
+        b.set_shmem_flag(true);
+        for i in 0..n {
+            let op = rand_beop(rng, i);
+            let file = sys::memfd("beop", 4096);
+            if reply_ack {
+                preload(&peer, op.code(), &spec::p_u64(0), None);
+            }
+            let res = util::catch(|| op.exec(&b, &file));
+            let mut m = spec::read_msg(peer.as_raw_fd(), 2000, 1 << 20);
+            let (body, nfds) = op.wire();
+            report::eval(1);
+            report::count(&format!("be.{}", op.name()), 1);
+            report::distinct(report::hash_mix(report::hash_str(&format!("be:{}:{}", op.name(), reply_ack as u8)), report::hash_bytes(&body)));
+            let h = if m.hdr_bytes.len() == 12 { m.hdr() } else { spec::Hdr { code: 0, flags: 0, size: 0 } };
+            let want_flags = F_VERSION1 | if reply_ack { F_NEED_REPLY } else { 0 };
+            let okw = m.complete()
+                && h.code == op.code()
+                && h.flags == want_flags
+                && m.body == body
+                && m.fds_later.is_empty()
+                && m.fds_first.len() == nfds
+                && (nfds == 0 || sys::ident(m.fds_first[0]) == sys::ident(file.as_raw_fd()));
+            if !okw || !matches!(res, Ok(Ok(0))) {
+                viol(cfg, &format!("be:{}:request-encoding", op.name()), "be",
+                    jo! {"op" => op.j(), "reply_ack" => reply_ack, "hdr" => J::hex(&m.hdr_bytes), "body" => J::hex(&m.body), "spec_body" => J::hex(&body),
+                    "fds_first" => m.fds_first.len(), "fds_later" => m.fds_later.len(), "want_flags" => want_flags, "result" => format!("{res:?}")});
+            }
+            report::sample(&format!("be.{}", op.name()), jo! {"channel" => "backend-proxy", "op" => op.j(), "hdr" => J::hex(&m.hdr_bytes), "body" => J::hex(&m.body)});
+            m.close_fds();
+        }
+    }
+    // spec-encoded requests -> FrontendReqHandler; acks on the wire
+    for reply_ack in [false, true] {
+        let h = Arc::new(Mutex::new(RecFrontend::default()));
+        let mut srv = FrontendReqHandler::new(h.clone()).expect("FrontendReqHandler");
+        srv.set_reply_ack_flag(reply_ack);
+        let peer_fd = unsafe { libc::dup(srv.get_tx_raw_fd()) };
+        for i in 0..n {
+            let op = rand_beop(rng, i);
+            let out = match rng.below(4) {
+                0 => FeOut::Val(0),
+                1 => FeOut::Val(rng.interesting64()),
+                2 => FeOut::Errno(rng.range(1, 133) as i32),
+                _ => FeOut::Other,
+            };
+            h.lock().unwrap().out = Some(out.clone());
+            let need_reply = rng.chance(3, 4);
+            let (body, nfds) = op.wire();
+            let file = sys::memfd("beop", 4096);
+            let fds: Vec<RawFd> = if nfds == 1 { vec![file.as_raw_fd()] } else { vec![] };
+            let flags = F_VERSION1 | if need_reply { F_NEED_REPLY } else { 0 };
+            sys::send_all(peer_fd, &spec::msg(op.code(), flags, &body), &fds).expect("send");
+            let before = h.lock().unwrap().log.len();
+            let res = util::catch(|| srv.handle_request());
+            report::eval(1);
+            report::count(&format!("fesrv.{}", op.name()), 1);
+            report::distinct(report::hash_mix(report::hash_str(&format!("fesrv:{}:{}{}:{out:?}", op.name(), reply_ack as u8, need_reply as u8)), report::hash_bytes(&body)));
+            let log: Vec<crate::rec::Call> = h.lock().unwrap().log[before..].to_vec();
+            let (m, args, bytes, nf) = op.expected_call();
+            let ok_log = log.len() == 1
+                && log[0].method == m
+                && log[0].args == args
+                && log[0].bytes == bytes
+                && log[0].fds.len() == nf
+                && (nf == 0 || log[0].fds[0].1 == sys::ident(file.as_raw_fd()));
+            if !ok_log {
+                viol(cfg, &format!("fesrv:{}:decoded-request", op.name()), "be",
+                    jo! {"op" => op.j(), "body" => J::hex(&body), "log" => log.iter().map(|c| c.j()).collect::<Vec<J>>(), "result" => format!("{res:?}")});
+            }
+            let (mut msgs, rest) = spec::read_all_msgs(peer_fd, 1 << 16);
+            let want_n = (reply_ack && need_reply) as usize;
+            let want_val = match out {
+                FeOut::Val(v) => v,
+                FeOut::Errno(e) => (-(e as i64)) as u64,
+                FeOut::Other => (-(libc::EINVAL as i64)) as u64,
+            };
+            let ok_ack = msgs.len() == want_n
+                && rest.is_empty()
+                && (want_n == 0 || {
+                    let r = &msgs[0];
+                    let hh = r.hdr();
+                    hh.code == op.code() && hh.flags == (F_VERSION1 | F_REPLY) && r.body == spec::p_u64(want_val) && r.fds_first.is_empty() && r.fds_later.is_empty()
+                });
+            if !ok_ack {
+                viol(cfg, &format!("fesrv:{}:ack-encoding", op.name()), "be",
+                    jo! {"op" => op.j(), "handler_result" => format!("{out:?}"), "reply_ack" => reply_ack, "need_reply" => need_reply, "want_value" => J::x64(want_val),
+                    "written" => msgs.iter().map(|m| jo!{"hdr" => J::hex(&m.hdr_bytes), "body" => J::hex(&m.body)}).collect::<Vec<J>>(), "trailing" => J::hex(&rest)});
+            }
+            if let Some(r) = msgs.first() {
+                report::sample(&format!("fesrv.{}", op.name()), jo! {"channel" => "frontend-req-server", "op" => op.j(), "handler_result" => format!("{out:?}"), "ack_hdr" => J::hex(&r.hdr_bytes), "ack_body" => J::hex(&r.body)});
+            }
+            for m in msgs.iter_mut() {
+                m.close_fds();
+            }
+            let keep = h.lock().unwrap().log.len().saturating_sub(2);
+            h.lock().unwrap().log.drain(..keep);
+        }
+        sys::close(peer_fd);
+    }
+}
+
+// ---------------------------------------------------------------------------------------------
+// GPU channel
+
+fn u32s(rng: &mut Rng, n: usize) -> Vec<u32> {
+    (0..n).map(|_| rng.interesting64() as u32).collect()
+}
+fn enc_u32s(v: &[u32]) -> Vec<u8> {
+    let mut w = spec::W::new();
+    for x in v {
+        w = w.u32(*x);
+    }
+    w.done()
+}
+
+fn gpu_channel(cfg: &Cfg, rng: &mut Rng) {
+    let n = cfg.pick(60, 800);
+    let (a, peer) = sys::pair();
+    sys::set_sndbuf(a.as_raw_fd(), 1 << 20);
+    let g = GpuBackend::from_stream(a);
+    let pfd = peer.as_raw_fd();
+    let gpre = |code: u32, payload: &[u8]| {
+        sys::send_all(pfd, &spec::msg(code, gpu::F_REPLY, payload), &[]).expect("preload gpu reply");
+    };
+    for i in 0..n * 12 {
+        let code = (i % 12) as u32 + 1;
+        let name = ["", "get_protocol_features", "set_protocol_features", "get_display_info", "cursor_pos", "cursor_pos_hide", "cursor_update",
+            "scanout", "update", "dmabuf_scanout", "dmabuf_update", "get_edid", "dmabuf_scanout2"][code as usize];
+        let file = sys::memfd("dmabuf", 4096);
+        let mut want_body: Vec<u8> = vec![];
+        let mut want_fds = 0usize;
+        let mut decoded_ok = true;
+        let mut decoded_detail = J::Null;
+        let res: Result<std::io::Result<()>, util::PanicRec> = match code {
+            gpu::GET_PROTOCOL_FEATURES => {
+                let v = rng.interesting64();
+                gpre(code, &spec::p_u64(v));
+                util::catch(|| {
+                    g.get_protocol_features().map(|r| {
+                        decoded_ok = r.value == v;
+                        decoded_detail = jo! {"sent" => J::x64(v), "got" => J::x64(r.value)};
+                    })
+                })
+            }
+            gpu::SET_PROTOCOL_FEATURES => {
+                let v = rng.interesting64();
+                want_body = spec::p_u64(v);
+                util::catch(|| g.set_protocol_features(&VhostUserU64::new(v)))
+            }
+            gpu::GET_DISPLAY_INFO => {
+                let rep = rng.bytes(gpu::DISPLAY_INFO_SIZE);
+                gpre(code, &rep);
+                util::catch(|| {
+                    g.get_display_info().map(|r| {
+                        decoded_ok = r.as_slice() == &rep[..];
+                        decoded_detail = jo! {"sent" => J::hex(&rep), "got" => J::hex(r.as_slice())};
+                    })
+                })
+            }
+            gpu::CURSOR_POS | gpu::CURSOR_POS_HIDE => {
+                let v = u32s(rng, 3);
+                want_body = enc_u32s(&v);
+                let p = VhostUserGpuCursorPos { scanout_id: v[0], x: v[1], y: v[2] };
+                util::catch(|| if code == gpu::CURSOR_POS { g.cursor_pos(&p) } else { g.cursor_pos_hide(&p) })
+            }
+            gpu::CURSOR_UPDATE => {
+                let v = u32s(rng, 5);
+                let mut data = [0u8; 4 * 64 * 64];
+                data.copy_from_slice(&rng.bytes(4 * 64 * 64));
+                want_body = enc_u32s(&v);
+                want_body.extend_from_slice(&data);
+                let u = VhostUserGpuCursorUpdate { pos: VhostUserGpuCursorPos { scanout_id: v[0], x: v[1], y: v[2] }, hot_x: v[3], hot_y: v[4] };
+                util::catch(|| g.cursor_update(&u, &data))
+            }
+            gpu::SCANOUT => {
+                let v = u32s(rng, 3);
+                want_body = enc_u32s(&v);
+                util::catch(|| g.set_scanout(&VhostUserGpuScanout { scanout_id: v[0], width: v[1], height: v[2] }))
+            }
+            gpu::UPDATE => {
+                let v = u32s(rng, 5);
+                let len = *rng.pick(&[0usize, 1, 4095, 4096, 4097, 20000, 65536]);
+                let data = rng.bytes(len);
+                want_body = enc_u32s(&v);
+                want_body.extend_from_slice(&data);
+                let u = VhostUserGpuUpdate { scanout_id: v[0], x: v[1], y: v[2], width: v[3], height: v[4] };
+                util::catch(|| g.update_scanout(&u, &data))
+            }
+            gpu::DMABUF_SCANOUT | gpu::DMABUF_SCANOUT2 => {
+                let v = u32s(rng, 10);
+                want_body = enc_u32s(&v);
+                let s = VhostUserGpuDMABUFScanout {
+                    scanout_id: v[0], x: v[1], y: v[2], width: v[3], height: v[4], fd_width: v[5], fd_height: v[6], fd_stride: v[7], fd_flags: v[8], fd_drm_fourcc: v[9],
+                };
+                let with_fd = rng.chance(2, 3);
+                want_fds = with_fd as usize;
+                let fdopt = if with_fd { Some(&file) } else { None };
+                if code == gpu::DMABUF_SCANOUT {
+                    util::catch(|| g.set_dmabuf_scanout(&s, fdopt))
+                } else {
+                    let modifier = rng.interesting64();
+                    want_body.extend_from_slice(&modifier.to_ne_bytes());
+                    let s2 = VhostUserGpuDMABUFScanout2 { dmabuf_scanout: s, modifier };
+                    util::catch(|| g.set_dmabuf_scanout2(&s2, fdopt))
+                }
+            }
+            gpu::DMABUF_UPDATE => {
+                let v = u32s(rng, 5);
+                want_body = enc_u32s(&v);
+                gpre(code, &[]);
+                let u = VhostUserGpuUpdate { scanout_id: v[0], x: v[1], y: v[2], width: v[3], height: v[4] };
+                util::catch(|| g.update_dmabuf_scanout(&u))
+            }
+            _ => {
+                let id = rng.interesting64() as u32;
+                want_body = enc_u32s(&[id]);
+                let rep = rng.bytes(gpu::EDID_RESP_SIZE);
+                gpre(code, &rep);
+                util::catch(|| {
+                    g.get_edid(&VhostUserGpuEdidRequest { scanout_id: id }).map(|r| {
+                        decoded_ok = r.as_slice() == &rep[..];
+                        decoded_detail = jo! {"sent_len" => rep.len(), "equal" => decoded_ok};
+                    })
+                })
+            }
+        };
+        let mut m = spec::read_msg(pfd, 2000, 1 << 20);
+        report::eval(1);
+        report::count(&format!("gpu.{name}"), 1);
+        report::distinct(report::hash_mix(report::hash_str(&format!("gpu:{name}:{want_fds}")), report::hash_bytes(&want_body)));
+        let h = if m.hdr_bytes.len() == 12 { m.hdr() } else { spec::Hdr { code: 0, flags: 0xffff, size: 0 } };
+        let okw = m.complete()
+            && h.code == code
+            && h.flags == 0
+            && h.size as usize == want_body.len()
+            && m.body == want_body
+            && m.fds_later.is_empty()
+            && m.fds_first.len() == want_fds
+            && (want_fds == 0 || sys::ident(m.fds_first[0]) == sys::ident(file.as_raw_fd()));
+        let res_ok = matches!(res, Ok(Ok(())));
+        if !okw || !res_ok {
+            let what = if let Err(p) = &res { format!("panic {} at {}", p.msg, p.location) } else { format!("{:?}", res.as_ref().ok()) };
+            viol(cfg, &format!("gpu:{name}:request-encoding"), "gpu",
+                jo! {"request" => name, "hdr" => J::hex(&m.hdr_bytes), "body" => J::hex(&m.body), "spec_body" => J::hex(&want_body),
+                "fds_first" => m.fds_first.len(), "fds_later" => m.fds_later.len(), "want_fds" => want_fds, "result" => what});
+        } else if !decoded_ok {
+            viol(cfg, &format!("gpu:{name}:decoded-reply"), "gpu", decoded_detail);
+        }
+        report::sample(&format!("gpu.{name}"), jo! {"channel" => "gpu", "request" => name, "hdr" => J::hex(&m.hdr_bytes), "body_len" => m.body.len(), "body" => J::hex(&m.body), "fds" => want_fds});
+        m.close_fds();
+        let mut d = sys::drain_nb(pfd);
+        d.close_fds();
+    }
+}
+
+pub fn run(cfg: &Cfg) {
+    report::assume("spec transcription in common::spec (codes, layouts) is itself trusted; protocol feature bits 20/21, request 44, backend requests 9/10 and the VhostUserMMap / VhostUserShMemConfig layouts are taken from the crate");
+    report::assume("reply payload of SET_LOG_BASE and the 4 trailing pad bytes of VhostUserInflight are not compared (unspecified)");
+    report::assume("GET_SHARED_OBJECT / POSTCOPY_ADVISE replies are taken as empty payload + descriptor, as the crate's two endpoints agree");
+    let mut rng = Rng::new(cfg.seed.wrapping_mul(0x1001).wrapping_add(cfg.shard));
+    let parts: [(&str, fn(&Cfg, &mut Rng)); 4] = [("fe", frontend_dir), ("srv", server_dir), ("be", backend_channel), ("gpu", gpu_channel)];
+    for (i, (name, f)) in parts.iter().enumerate() {
+        if cfg.only.is_some() {
+            if cfg.wants(name) {
+                f(cfg, &mut rng);
+            }
+        } else if cfg.nshards < 4 || (i as u64) % cfg.nshards == cfg.shard % 4 {
+            // with >= 4 shards each part runs in nshards/4 processes with different PRNG streams
+            f(cfg, &mut rng);
+        }
+    }
 }
